@@ -5,7 +5,8 @@ EXTENDS Priors, IOUtils
 CONSTANTS QNum, QShift, QDen,   \* rational arguments {(n - QShift) / d : n \in QNum, d \in QDen}
           ENum, EShift,         \* exponents of linear-space arguments {e - EShift : e \in ENum}
           SNum, SDen,           \* standard deviations {n / d}
-          Export
+          Export,
+          Args                  \* "read_only" (the code) | "lin_in_place" (expected counterexample), see Priors.tla: ArgsFrame
 VARIABLES phase, call, out
 vars == <<phase, call, out>>
 
@@ -49,6 +50,9 @@ DefaultInv == Done /\ call.key1 \in {"bounds", "lin_bounds"} /\ call.cls = (IF c
     LET mode == IF call.key1 = "lin_bounds" THEN "log" ELSE "linear" IN
     /\ Build(DefaultCall(mode, call.v1)) = out.p
     /\ SpaceOf(out.p.kind) = mode
+\* the arguments of a constructor are inputs: whatever the container, the caller's object is as it was and a second prior
+\* built from the same object is the same prior
+ArgsFrameInv == Done => ArgsFrame(Args, call)
 FitsInv == Done => /\ Fits(out.p.a) /\ Fits(out.p.b)
                    /\ \A k \in 1..Len(out.s) : Fits(out.s[k])
                    /\ \A i \in 1..Len(out.t) : IF out.p.kind \in UniKinds THEN Fits(out.t[i].w) ELSE Fits(out.t[i])
@@ -56,5 +60,6 @@ FitsInv == Done => /\ Fits(out.p.a) /\ Fits(out.p.b)
 Emit == (Export /\ Done) =>
     PrintT(<<"VEC", ToJson([call |-> call, p |-> out.p, space |-> SpaceOf(out.p.kind), s |-> out.s, un |-> UN,
                             names |-> Spellings[call.cls], logform |-> LogForm(call),
-                            tpts |-> TailPts, t |-> out.t, zts |-> ZTS])>>)
+                            tpts |-> TailPts, t |-> out.t, zts |-> ZTS,
+                            conts |-> Containers, scalars |-> ScalarKinds, twice |-> BuildTwice(Args, call, "ndarray")])>>)
 =============================================================================
